@@ -87,3 +87,17 @@ func sliceRootParam(v ssa.Value, d int) *ssa.Parameter {
 	}
 	return nil
 }
+
+// stdSliceOp: a call of a standard-library slice helper whose result is backed by its first argument or by fresh
+// storage, exactly like append: slices.Insert, slices.Delete, slices.Grow, slices.Clip, slices.Compact.
+func stdSliceOp(call *ssa.Call) (name string, ok bool) {
+	sc := ir.Callee(call.Call)
+	if sc == nil {
+		return "", false
+	}
+	switch n := sc.String(); n {
+	case "slices.Insert", "slices.Delete", "slices.Grow", "slices.Clip":
+		return n, len(call.Call.Args) >= 1
+	}
+	return "", false
+}
